@@ -248,14 +248,20 @@ def _compile_files_cache(filenames,
                          encoding,
                          cache_dir,
                          numeric_enums):
-    key = [codec.encode('ascii')]
+    key = [
+        codec.encode('ascii'),
+        repr((any_defined_by_choices, encoding, numeric_enums)).encode('utf-8')
+    ]
 
     if isinstance(filenames, str):
         filenames = [filenames]
 
     for filename in filenames:
         with open(filename, 'rb') as fin:
-            key.append(fin.read())
+            data = fin.read()
+
+        key.append('{}:'.format(len(data)).encode('ascii'))
+        key.append(data)
 
     key = b''.join(key)
     cache = diskcache.Cache(cache_dir)
@@ -359,8 +365,8 @@ def compile_files(filenames,
 
     `cache_dir` specifies the compiled files cache location in the
     file system. Give as ``None`` to disable the cache. By default the
-    cache is disabled. The cache key is the concatenated contents of
-    given files and the codec name. Using a cache will significantly
+    cache is disabled. The cache key is the codec name, the compile
+    options and the contents of given files. Using a cache will significantly
     reduce the compile time when recompiling the same files. The cache
     directory is automatically created if it does not exist. Remove
     the cache directory `cache_dir` to clear the cache.
